@@ -23,7 +23,7 @@ LONG19 = {
     "charclass": [(r"[a-z]+", "a-1"), (r"\w+", "a- "), (r"[^a-z]+", "a-1"), (r"[a-z]{2,}", "a-1")],
     "composite": [(r"[a-z]+[0-9]+[a-z]+", "a1-"), (r"[a-z]+[0-9]+", "a1-"), (r"[a-z]*[0-9]+", "a1-"), (r"[a-z]+[0-9]*", "a1-"), (r"[a-z]{2}[0-9]", "a1-"), (r"[0-9]+[a-z]*[0-9]", "a1-")],
     "compositedfa": [(r"[a-z]+[0-9]+[a-z]+", "a1-"), (r"[a-z]+[0-9]+", "a1-"), (r"[a-z]+[a-z]+", "a1-"), (r"[0-9]+[a-z]*[0-9]", "a1-"), (r"[a-z]?[0-9]", "a1-")],
-    "engine": [(r"[a-z]+[0-9]+[a-z]+", "a1-"), (r"[a-z]+\s+[0-9]+", "a1 "), (r"[a-z]{2,}[0-9]+", "a1-")],
+    "engine": [(r"[a-z]+[0-9]+[a-z]+", "a1-"), (r"[a-z]+\s+[0-9]+", "a1 "), (r"[ab]+[12]+[ab]+[xy]+", "a1x"), (r"[a-z]{2,}[0-9]+", "a1-")],
 }
 # windows for patterns whose interesting matches are longer than the symbolic part
 WIN19 = {r"[a-z]+(?:\b-){1,2}e": [("a", ""), ("a-", "")], r".*ab$": [("", "b")], r"\d+ab": [("1", "")], r"x.*ab.*y": [("x", "y")], r"(?m)^/.*\.js": [("/", "s")], r"\w+@\w+": [("a", "")]}
@@ -59,7 +59,7 @@ def items(tier):
     # the specialised searchers have 4x unrolled loops: every position of a round (and the tail after it) needs haystacks
     # of 7-9 bytes; the classes are exercised by one representative byte each, so the alphabet is 3 symbols
     for api, pats in LONG19.items():
-        for p, al in (pats if tier != "quick" else pats[:3]):
+        for p, al in (pats if tier != "quick" else pats[:3] if api != "engine" else pats[:4]):
             for LL in ([7] if tier == "quick" else [7, 9]):
                 for at in ([0] if tier == "quick" else [0, 1]):
                     out.append(mk("C19", p, api, LL, "hex:" + al.encode().hex(), n=at))
